@@ -48,6 +48,16 @@ static int arena_ok;
 
 void sa_set_tag(int tag) { cur_tag = tag; }
 
+/* debugging aid: SIM_TRACE_SERIAL=<n> prints a stack trace when allocation #n is made */
+static uint32_t trace_serial;
+#ifdef SIM_ASAN
+void __sanitizer_print_stack_trace(void);
+static void sa_print_stack(void) { __sanitizer_print_stack_trace(); }
+#else
+#include <execinfo.h>
+static void sa_print_stack(void) { void *bt[32]; int n = backtrace(bt, 32); backtrace_symbols_fd(bt, n, 2); }
+#endif
+
 void sa_init(void)
 {
     void *p = mmap((void *)ARENA_BASE, COMPACT_SIZE, PROT_READ | PROT_WRITE,
@@ -59,6 +69,7 @@ void sa_init(void)
         _exit(2);
     }
     blk = calloc(MAXBLK, sizeof(blk_t));
+    if (getenv("SIM_TRACE_SERIAL")) trace_serial = (uint32_t)strtoul(getenv("SIM_TRACE_SERIAL"), NULL, 10);
     SA_POISON((void *)ARENA_BASE, COMPACT_SIZE);
     arena_ok = 1;
     bump = ARENA_BASE + 4096;
@@ -231,6 +242,7 @@ static void activate(int i, size_t size)
     b->size = size;
     b->live = 1;
     b->serial = ++serial;
+    if (trace_serial && serial == trace_serial) { fprintf(stderr, "simalloc: allocation #%u (%zu bytes) made here:\n", serial, size); sa_print_stack(); }
     b->tag = cur_tag;
     live_cnt++;
     live_bytes += size;
